@@ -121,6 +121,26 @@ def boundary_lines():
     return out
 
 
+def grid_lines():
+    """full cross products of small and special values of the numeric arguments of every generator that has more than one
+    (a value-dependent special case needs its arguments to meet)"""
+    out = []
+    sv = [0, 1, 2, 3, 4, 5, 6, 13, 17, 255, 256, 65535]
+    for alg in sv:
+        for seq in sv:
+            for st in (0, 1, 2, 13, 17, 0x5566, 65535):
+                out.append("gen auth a1=010203040506 a2=0a0b0c0d0e0f a3=101112131415 alg=%d seq=%d status=%d" % (alg, seq, st))
+    for kind in ("beacon", "probe_req", "probe_resp", "assoc_req", "reassoc_req"):
+        for ch in range(256):
+            for ss in ("-", "6e6574"):
+                extra = " ap=202122232425" if kind == "reassoc_req" else ""
+                out.append("gen %s a1=010203040506 a2=0a0b0c0d0e0f a3=101112131415 ssid=%s ch=%d%s clk=1700000000:123456789" % (kind, ss, ch, extra))
+    for kind in ("deauth", "disassoc"):
+        for r in range(0, 80):
+            out.append("gen %s a1=010203040506 a2=0a0b0c0d0e0f a3=101112131415 reason=%d" % (kind, r))
+    return out
+
+
 def setter_lines():
     """every sequence of up to three setter / remove calls on the kinds that have setters (exhaustive over a small alphabet)"""
     import itertools
@@ -185,6 +205,7 @@ def check(ctx):
     ok, broken, data, exe = r
     rnd = random.Random(ctx.seed)
     fw.run_suite(ctx, exe, "S-gen/boundary", boundary_lines(), "frame generation")
+    fw.run_suite(ctx, exe, "S-gen/argument-grid", grid_lines(), "frame generation over the cross product of small argument values")
     fw.run_suite(ctx, exe, "S-gen/setter-sequences", setter_lines(), "frame generation after setter / remove sequences")
     fw.run_suite(ctx, exe, "S-gen/api-sequences", api_lines(random.Random(ctx.seed + 5), 120 if ctx.tier == "quick" else 2000), "frame generation after a short call sequence")
     n = 250 if ctx.tier == "quick" else 4000
